@@ -450,7 +450,7 @@ pub fn suite(kind: &'static str, prop: &str, tier: &str, seed: u64) -> Report {
                 for pos in 0..positions {
                     for (bi, bad) in ["x", "@@", "1x", "-x", "99999999999999999999", "-99999999999999999999"].iter().enumerate() {
                         // a number far outside every range is a corruption of a literal only (header counts and weights have other checks)
-                        if bi >= 4 && !is_literal_position(d, pos) {
+                        if bi >= 5 && !is_literal_position(d, pos) {
                             continue;
                         }
                         let t = render(d, l, Some((pos, bad)));
